@@ -6,6 +6,9 @@ import lib, callgen
 def render(n, c):
     vs = []
     for i, l in enumerate(c["lits"]):
+        # every third variant is documented (one or two lines): bindings print variant docs inside the enum body
+        if (n + i) % 3 == 0:
+            vs.append("        /// The number %d case.\n" % i + ("        /// Second line, with a comma, and a semicolon; too.\n" if (n + i) % 2 == 0 else ""))
         vs.append("        V%d%s,\n" % (i, (" = %d" % l["v"]) if l["has"] else ""))
     return ("    pub enum E%d {\n%s    }\n    impl E%d {\n        pub fn rt(self) -> E%d { self }\n        pub fn opt(self) -> Option<E%d> { Some(self) }\n    }\n" % (n, "".join(vs), n, n, n))
 
@@ -168,7 +171,7 @@ def run(rep, tier):
             bad("js", "JS enum values differ", {"js": d})
         # Dart: scheme and table from the text
         if "dart" in outs:
-            t = open(os.path.join(outs["dart"], f + ".g.dart")).read()
+            t = re.sub(r'//[^\n]*', '', open(os.path.join(outs["dart"], f + ".g.dart")).read())     # what a Dart compiler sees
             names = re.search(r'enum %s \{(.*?);' % f, t, re.S).group(1)
             order = re.findall(r'\b(v\d+)\b', names)
             tab = dict((a, int(b)) for a, b in re.findall(r'case (v\d+):\s*return (-?\d+);', t))
